@@ -7,6 +7,7 @@
 //! implementation-side property oracle fails for that request.
 mod c11;
 mod c12;
+mod c13;
 mod c19;
 mod jose_util;
 mod rng;
@@ -23,6 +24,7 @@ fn run_line(prop: &str, line: &str) -> String {
   let r = std::panic::catch_unwind(|| match prop {
     "C11" => c11::run(args),
     "C12" => c12::run(args),
+    "C13" => c13::run(args),
     "C19" => c19::run(args),
     _ => "bad-request".to_string(),
   });
@@ -49,6 +51,7 @@ fn main() {
       match prop {
         "C11" => c11::gen(thorough, seed, &mut out),
         "C12" => c12::gen(thorough, seed, &mut out),
+        "C13" => c13::gen(thorough, seed, &mut out),
         "C19" => c19::gen(thorough, seed, &mut out),
         _ => {
           eprintln!("unknown property");
